@@ -53,11 +53,21 @@ var errWrongType = resp.Err("WRONGTYPE Operation against a key holding the wrong
 func (s *Server) get(db int, key string) *entry {
 	k := s.ks(db)
 	e := k.m[key]
-	if e != nil && e.expireAt != 0 && e.expireAt <= nowMs() {
+	if e != nil && e.expireAt != 0 && s.expiredAt(e.expireAt) {
 		s.deleteKey(db, key, nil)
 		return nil
 	}
 	return e
+}
+
+// expiredAt says whether a key with that expiry is gone now. By default a key stops being readable when the clock
+// reaches its expiry millisecond; with Server.ExpireAfterMs it lives through that millisecond, as in Redis
+// (keyIsExpired: now > when), where PTTL can therefore answer 0 for an existing key.
+func (s *Server) expiredAt(at int64) bool {
+	if s.ExpireAfterMs {
+		return at < nowMs()
+	}
+	return at <= nowMs()
 }
 
 func (s *Server) deleteKey(db int, key string, by *Conn) bool {
@@ -95,7 +105,11 @@ func (s *Server) setExpire(db int, key string, at int64) {
 	}
 	// fire exactly when the clock reaches the expiry millisecond, so that the deletion (and its
 	// invalidation push) happens at the instant the key stops being readable
-	d := time.Until(time.UnixMilli(at))
+	fire := at
+	if s.ExpireAfterMs {
+		fire = at + 1
+	}
+	d := time.Until(time.UnixMilli(fire))
 	if d < 0 {
 		d = 0
 	}
@@ -106,7 +120,7 @@ func (s *Server) setExpire(db int, key string, at int64) {
 		if s.W.stopped {
 			return
 		}
-		if cur := s.ks(db).m[key]; cur != nil && cur.expireAt != 0 && cur.expireAt <= nowMs() {
+		if cur := s.ks(db).m[key]; cur != nil && cur.expireAt != 0 && s.expiredAt(cur.expireAt) {
 			s.W.logLocked(Event{Server: s.Addr, Conn: -1, Kind: "exec", Req: -1, Argv: []string{"<expire>", key}})
 			s.deleteKey(db, key, nil)
 		}
